@@ -430,4 +430,122 @@ theorem sendT_sim (C : Cfg) (r : Bool) (E : Engine σ) (s : St σ ChanT) (data :
   · exact ⟨rfl, hb'⟩
   · exact ⟨rfl, hb'⟩
 
+/-! ### the two endpoints under virtual time -/
+
+def callOnT (C : Cfg) (P : HsP) (client : Bool) (s : St Hs ChanT) (c : Call) (T : Int) : Bool × St Hs ChanT :=
+  match c with
+  | .send d => let r := sendT C (chanWorldT client) (engine P) s d T; (isOk r.1, r.2)
+  | .recv n => let r := receiveT C (chanWorldT client) (engine P) s n T; (isOk r.1, r.2)
+
+theorem callOnT_sim (C : Cfg) (P : HsP) (client : Bool) (s : St Hs ChanT) (c : Call) (T : Int) (hT : 0 ≤ T) :
+    Sim (s.w.clock + T) (callOnT C P client s c T) (callOn C P client (proj s) c) := by
+  cases c with
+  | send d =>
+    obtain ⟨a, s', hL, hR, hb⟩ := (sendT_sim C client (engine P) s d T hT).cases
+    simp only [callOnT, callOn, hL, hR]
+    exact ⟨rfl, hb⟩
+  | recv n =>
+    obtain ⟨a, s', hL, hR, hb⟩ := (receiveT_sim C client (engine P) s n T hT).cases
+    simp only [callOnT, callOn, hL, hR]
+    exact ⟨rfl, hb⟩
+
+/-- `Sys` with one virtual clock for both endpoints -/
+structure SysT where
+  gc : Glue := {}
+  ec : Hs
+  gs : Glue := {}
+  es : Hs
+  ch : Chan := {}
+  clock : Int := 0
+  faults : Nat := 0
+
+def SysT.init (P : HsP) (segs : List Nat) : SysT :=
+  { ec := Hs.init P true, es := Hs.init P false, ch := { segs := segs } }
+
+def SysT.step (C : Cfg) (P : HsP) (y : SysT) (client : Bool) (c : Call) (T : Int) : SysT :=
+  if client then
+    let r := callOnT C P true ⟨y.gc, y.ec, ⟨y.ch, y.clock⟩⟩ c T
+    { y with gc := r.2.g, ec := r.2.e, ch := r.2.w.ch, clock := r.2.w.clock, faults := y.faults + (if r.1 then 0 else 1) }
+  else
+    let r := callOnT C P false ⟨y.gs, y.es, ⟨y.ch, y.clock⟩⟩ c T
+    { y with gs := r.2.g, es := r.2.e, ch := r.2.w.ch, clock := r.2.w.clock, faults := y.faults + (if r.1 then 0 else 1) }
+
+/-- one call of a timed schedule: the call and its timeout in ms -/
+structure ActT where
+  act : Act
+  timeout : Int
+  deriving DecidableEq, Repr
+
+def SysT.act (C : Cfg) (P : HsP) (dc ds : Bytes) (y : SysT) (a : ActT) : SysT :=
+  y.step C P a.act.client (a.act.call dc ds) a.timeout
+
+def SysT.run (C : Cfg) (P : HsP) (dc ds : Bytes) (l : List ActT) (y : SysT) : SysT := l.foldl (SysT.act C P dc ds) y
+
+/-- forget the clock and what is left of the budgets -/
+def SysT.untimed (y : SysT) : Sys :=
+  { gc := { y.gc with remainingTime := 0 }, ec := y.ec, gs := { y.gs with remainingTime := 0 }, es := y.es, ch := y.ch,
+    faults := y.faults }
+
+def SysT.bothFinished (y : SysT) : Prop := 3 ≤ y.ec.stage ∧ 3 ≤ y.es.stage
+
+/-- the time the calls of a timed schedule may take at most: the sum of their timeouts -/
+def budgetSum : List ActT → Int
+  | [] => 0
+  | a :: l => a.timeout + budgetSum l
+
+theorem untimed_init (P : HsP) (segs : List Nat) : (SysT.init P segs).untimed = Sys.init P segs := rfl
+
+/-- the zero-timeout calls ignore the budget a previous call left behind -/
+theorem callOn_budget (C : Cfg) (P : HsP) (client : Bool) (g : Glue) (e : Hs) (w : Chan) (c : Call) (t : Int) :
+    callOn C P client ⟨{ g with remainingTime := t }, e, w⟩ c = callOn C P client ⟨g, e, w⟩ c := by
+  cases c <;> rfl
+
+/-- the glue of the side that is not calling keeps whatever budget it had; a zero-timeout step does not look at it -/
+theorem step_untimed (C : Cfg) (P : HsP) (y : SysT) (client : Bool) (c : Call) (T : Int) (hT : 0 ≤ T) :
+    (y.step C P client c T).untimed = y.untimed.step C P client c ∧
+    (y.step C P client c T).clock ≤ y.clock + T := by
+  cases client with
+  | true =>
+    obtain ⟨a, s', hL, hR, hb⟩ := (callOnT_sim C P true ⟨y.gc, y.ec, ⟨y.ch, y.clock⟩⟩ c T hT).cases
+    have hR' : callOn C P true ⟨{ y.gc with remainingTime := 0 }, y.ec, y.ch⟩ c = (a, proj s') := hR
+    obtain ⟨h0, hc⟩ := hb
+    simp only at hc
+    refine ⟨?_, ?_⟩
+    · simp only [SysT.step, Sys.step, SysT.untimed, if_true, hL, hR']
+      rfl
+    · simp only [SysT.step, if_true, hL]
+      omega
+  | false =>
+    obtain ⟨a, s', hL, hR, hb⟩ := (callOnT_sim C P false ⟨y.gs, y.es, ⟨y.ch, y.clock⟩⟩ c T hT).cases
+    have hR' : callOn C P false ⟨{ y.gs with remainingTime := 0 }, y.es, y.ch⟩ c = (a, proj s') := hR
+    obtain ⟨h0, hc⟩ := hb
+    simp only at hc
+    refine ⟨?_, ?_⟩
+    · simp only [SysT.step, Sys.step, SysT.untimed, Bool.false_eq_true, if_false, hL, hR']
+      rfl
+    · simp only [SysT.step, Bool.false_eq_true, if_false, hL]
+      omega
+
+/-- **a timed schedule does what the same schedule with all timeouts 0 does**, and takes no longer than the sum of
+its timeouts -/
+theorem run_untimed (C : Cfg) (P : HsP) (dc ds : Bytes) :
+    ∀ (l : List ActT) (y : SysT), (∀ a ∈ l, 0 ≤ a.timeout) →
+      (SysT.run C P dc ds l y).untimed = Sys.run C P dc ds (l.map ActT.act) y.untimed ∧
+      (SysT.run C P dc ds l y).clock ≤ y.clock + budgetSum l := by
+  intro l
+  induction l with
+  | nil => intro y _; exact ⟨rfl, by simp [SysT.run, budgetSum]⟩
+  | cons a l ih =>
+    intro y h
+    obtain ⟨h1, h2⟩ := step_untimed C P y a.act.client (a.act.call dc ds) a.timeout (h a (List.mem_cons_self ..))
+    obtain ⟨j1, j2⟩ := ih (y.act C P dc ds a) (fun b hb => h b (List.mem_cons_of_mem _ hb))
+    refine ⟨?_, ?_⟩
+    · show (SysT.run C P dc ds l (y.act C P dc ds a)).untimed = _
+      rw [j1, List.map_cons, run_cons]
+      congr 1
+    · show (SysT.run C P dc ds l (y.act C P dc ds a)).clock ≤ _
+      have : (y.act C P dc ds a).clock ≤ y.clock + a.timeout := h2
+      simp only [budgetSum]
+      omega
+
 end SockModel.Hs
